@@ -780,6 +780,16 @@ def run_park(spec, acc):
     # window for interleavings) and is expanded with every racing call x state
     # first; closed points get their remaining combinations afterwards.
     queue = deque((pt, 'rel', rng.choice(states)) for pt in points)
+    # every racing call x queue state at least once, whatever the park point
+    for r in racings:
+        for st_ in states:
+            pt = rng.choice(points)
+            if legal(pt[0], r, st_, pt[3]):
+                queue.appendleft((pt, r, st_))
+            else:
+                cands = [q for q in points if legal(q[0], r, st_, q[3])]
+                if cands:
+                    queue.appendleft((rng.choice(cands), r, st_))
     later = deque()
     done_cases = set()
     t_stop = time.time() + cfg['secs']
